@@ -223,41 +223,54 @@ def t1(ck: Check) -> None:
         probs = []
         if not stores:
             probs.append("no value store")
+        posname = "is_positive"
+        for n_ in own_walk(fm.f.node):
+            if isinstance(n_, ast.Assign) and isinstance(n_.targets[0], ast.Tuple) and len(n_.targets[0].elts) == 2 \
+                    and isinstance(n_.value, ast.Call) and callee_name(n_.value) == "place_to_variable":
+                posname = text(n_.targets[0].elts[1])
         for s in stores:
             tbl = {}
             for pol in (True, False):
                 try:
-                    tbl[pol] = ev(s.value, {"is_positive": pol})
+                    tbl[pol] = ev(s.value, {posname: pol})
                 except Unknown:
                     tbl = None
                     break
             if tbl != want:
                 probs.append(f"decodes positive/negative atoms to {tbl}, expected {want}")
         ck.ob("T1", fm, stores[0] if stores else fm.f.node, not probs, "; ".join(probs) if probs else f"{fam}: {want}", key=q)
-    # retained-set reduction deletes succs - preds of the retained place
+    # retained-set reduction deletes succs - preds of the retained place (read symbolically)
+    from .symstr import SymEval
     f = rs.f
+    pn_p, ret_p = f.params()[0], f.params()[1]
+    se = SymEval(rs, pol_tables=True)
     probs = []
-    dele = [n for n in own_walk(f.node) if isinstance(n, ast.Assign) and "deleted" in text(n.targets[0])]
-    if not dele:
+    R = ret_p
+    SP = f"P(elem({R}),{{0:F,1:T}}@idx({R},elem({R})))"
+    rem = [n for n in own_walk(f.node) if isinstance(n, ast.Call) and callee_name(n) in ("remove_node", "remove_nodes_from") and n.args]
+    anchor = rem[0] if rem else f.node
+    if not rem:
         probs.append("deleted transitions not computed")
-    else:
-        v = dele[0].value
-        t = text(v)
-        if not re.search(r"set\(succs\) - set\(preds\)", t):
-            probs.append(f"deleted transitions are `{t}`, expected consumers of the retained place that do not give the "
-                         f"token back (set(succs) - set(preds))")
-        for nm, meth in (("preds", "predecessors"), ("succs", "successors")):
-            d = [n for n in own_walk(f.node) if isinstance(n, ast.Assign) and text(n.targets[0]) == nm]
-            if not d or f".{meth}(source_place)" not in text(d[0].value):
-                probs.append(f"`{nm}` is not {meth}(source_place)")
-        rem = [n for n in own_walk(f.node) if isinstance(n, ast.Call) and callee_name(n) == "remove_node"]
-        if not rem or "reduced" not in text(rem[0].func.value):
-            probs.append("transitions are not removed from the copy of the net")
-        cp = [n for n in own_walk(f.node) if isinstance(n, (ast.Assign, ast.AnnAssign)) and n.value is not None
-              and "copy" in text(n.value) and "petri_net" in text(n.value)]
-        if not cp:
+    for c_ in rem:
+        cn = rs.cfgn(c_)
+        if se.val(c_.func.value, cn) != f"{pn_p}.copy()":
             probs.append("the reduction mutates the caller's Petri net")
-    ck.ob("T1", rs, dele[0] if dele else f.node, not probs, "; ".join(probs) if probs else
+        what = c_.args[0]
+        if callee_name(c_) == "remove_node":
+            lps = [l for l in rs.cfg.enclosing_loops(cn) if isinstance(l, ast.For) and text(l.target) == text(what)]
+            col = se.collection(lps[0].iter, rs.cfg.loop_header[lps[0]]) if lps else None
+        else:
+            col = se.collection(what, cn)
+        want_el = f"elem(succs({SP}))"
+        want_c = logic.Not(logic.B(f"in:{want_el}|preds({SP})"))
+        if not col or len(col) != 1:
+            probs.append("the transitions to delete are not computed as one collection")
+        else:
+            el, cnd = col[0]
+            if el != want_el or not logic.equivalent(cnd, want_c) or logic.atoms(se.cond(cn, local=True)):
+                probs.append(f"deleted transitions are `{el[:70]}` if `{logic.show(cnd)[:90]}`; expected consumers of the retained place "
+                             f"that do not give the token back (successors of the place of the retained value minus its predecessors)")
+    ck.ob("T1", rs, anchor, not probs, "; ".join(sorted(set(probs))) if probs else
           "retained variables lose exactly the transitions leaving the retained value", key="retained-set reduction")
 
 
